@@ -240,6 +240,13 @@ impl MT101 {
             });
         }
 
+        if transactions.is_empty() {
+            return Err(crate::errors::ParseError::InvalidFormat {
+                message: "MT101: At least one transaction (sequence B, starting with field 21) is required"
+                    .to_string(),
+            });
+        }
+
         // Verify all content is consumed
         verify_parser_complete(&parser)?;
 
